@@ -40,7 +40,10 @@ RULE = ("Hypothesis path strings (grammar + decoy spellings) x injection "
         "{dot-dot, absolute, mixed}, normalised shape of the path, second "
         "interface).")
 ASSUMPTIONS = [
-    "no symbolic links are generated (lexical resolution is the oracle)",
+    "stage paths: no symbolic links (lexical resolution is the oracle); stage "
+    "symlink only asserts the anchored mechanism: a writer must not READ a "
+    "shards_list.json that a symbolic link places outside the root (readers "
+    "following symlinks are legitimate use and not asserted)",
     "opens are observed by a Python audit hook and by inotify on the "
     "sandbox directories outside the root",
 ]
@@ -351,6 +354,92 @@ def shape(p: str) -> str:
     return "/".join(out)[:40]
 
 
+# ------------------------------------------------------------------ symlinks
+def strategy_symlink(tier):
+    return st.fixed_dictionaries({
+        "fmt": st.sampled_from(["fb", "npz"]),
+        "level": st.sampled_from(["split-dir", "sub-dir", "list-file"]),
+        "n": st.integers(1, 5),
+        "outside_has_shards": st.booleans(),
+    })
+
+
+def run_symlink(case, ctx):
+    """The resolved-path containment check when an existing list is loaded: a
+    writer whose target directory (or list file) is a symbolic link leading
+    outside the root must not read the outside shards_list.json (it would
+    merge foreign metadata into this dataset)."""
+    from sedpack.io.dataset_filler import DatasetFiller
+    fmt = case["fmt"]
+    desc = dsops.simple_desc(fmt, "", 2, ["sha256"], payload=False)
+    sandbox = env.scratch_dir("c17s")
+    try:
+        root = sandbox / "outer" / "ds"
+        outside = sandbox / "outer" / "elsewhere"
+        outside.mkdir(parents=True)
+        ds = dsops.create_dataset(root, desc)
+        dsops.filler_session(ds, desc, [["test", [0, 1, 2], None]])
+        # a foreign dataset provides a valid list (and shards) outside
+        other = dsops.create_dataset(sandbox / "outer" / "other", desc)
+        level = case["level"]
+        sub = None if level == "split-dir" else "sub"
+        dsops.filler_session(other, desc,
+                             [["train", [100, 101, 102], None]], sub)
+        src_dir = sandbox / "outer" / "other" / "train" / (sub or "")
+        if level == "split-dir":
+            shutil.copytree(src_dir, outside / "t")
+            os.symlink(outside / "t", root / "train")
+            target_list = outside / "t" / "shards_list.json"
+        elif level == "sub-dir":
+            (root / "train").mkdir()
+            shutil.copytree(src_dir, outside / "s")
+            os.symlink(outside / "s", root / "train" / "sub")
+            target_list = outside / "s" / "shards_list.json"
+        else:
+            (root / "train" / "sub").mkdir(parents=True)
+            shutil.copyfile(src_dir / "shards_list.json",
+                            outside / "shards_list.json")
+            os.symlink(outside / "shards_list.json",
+                       root / "train" / "sub" / "shards_list.json")
+            target_list = outside / "shards_list.json"
+        if not case["outside_has_shards"]:
+            for f in outside.rglob("*." + fmt):
+                f.unlink()
+        real_target = os.path.realpath(target_list)
+        reads = []
+
+        def hook(event, args):
+            if event == "open" and args and isinstance(args[0], (str, bytes)):
+                if os.path.realpath(os.fsdecode(args[0])) == real_target:
+                    mode = args[1] if len(args) > 1 else "r"
+                    if not isinstance(mode, str) or not any(
+                            c in mode for c in "wax"):
+                        reads.append(os.fsdecode(args[0]))
+
+        sys.addaudithook(hook)
+        err = None
+        try:
+            filler = ds.filler() if sub is None else DatasetFiller(
+                ds, relative_path_from_split=Path(sub))
+            with filler as f:
+                for i in range(10, 10 + case["n"]):
+                    f.write_example(values=dsops.example_for(desc, i),
+                                    split="train")
+        except Exception as exc:  # pylint: disable=broad-except
+            err = exc
+        if reads:
+            ctx.fail(
+                "reads-contained", ("symlinked-list-read-outside-root", level),
+                f"writer into a {level} that is a symbolic link leading "
+                f"outside the root read {reads[0]!r} -> {real_target!r} "
+                f"({'raised ' + repr(err) if err else 'no error'})")
+        ctx.label("symlink:" + level, "raised" if err else "accepted")
+        ctx.nontrivial(["symlink", level, fmt, case["n"],
+                        case["outside_has_shards"]])
+    finally:
+        dsops.rmtree(sandbox)
+
+
 STAGES = [
     Stage(name="paths",
           run=run_case,
@@ -360,5 +449,13 @@ STAGES = [
               "thorough": 30000
           },
           fork=True,
-          rust=True)
+          rust=True),
+    Stage(name="symlink",
+          run=run_symlink,
+          strategy=strategy_symlink,
+          examples={
+              "quick": 160,
+              "thorough": 1500
+          },
+          fork=True),
 ]
